@@ -178,14 +178,17 @@ def _shape_knobs(r, loop):
     return {"data": {"n": n}, "batch_size": r.choice([4, 6, 8, n]), "val_prop": r.choice([0.25, 0.34, 0.5])}
 
 
-def _run_knobs(r, loop):
+def _run_knobs(r, loop, tier="quick"):
     k = {"key_seed": r.randrange(2**31), "return_best": r.random() < 0.5, "show_progress": r.random() < 0.1,
          "key_style": r.choice(["legacy", "legacy", "typed"])}
+    deep = tier == "thorough"
     if loop == "vi":
-        k["steps"] = r.choice([0, 1, 2, 3, 4, 5, 6, 8])
+        k["steps"] = r.choice([0, 1, 2, 3, 4, 5, 6, 8] + ([10, 12, 16, 24] if deep else []))
     else:
-        k["max_epochs"] = r.choice([0, 1, 2, 2, 3, 3])
+        k["max_epochs"] = r.choice([0, 1, 2, 2, 3, 3] + ([4, 5, 6] if deep else []))
         k["max_patience"] = r.choice([0, 1, 2, 5])
+    if deep:
+        k["max_states"] = 10
     return k
 
 
@@ -297,13 +300,13 @@ def world_for(prop, tier, seed, idx):
     w = copy.deepcopy(b)
     w["idx"] = idx
     w["model"] = _fill_values(b["model"], r)
-    w.update(_run_knobs(r, b["loop"]))
+    w.update(_run_knobs(r, b["loop"], tier))
     if not (b["loop"] == "data" and b["loss"] == "mle"):
         w["key_style"] = "legacy"  # flowjax samplers reshape raw uint32 key data: typed keys unsupported there
     if "data" in w:
         w["data"]["seed"] = r.randrange(2**31)
     box = _box(b["model"])
-    hint = w.get("steps", 6) if b["loop"] == "vi" else 6
+    hint = w.get("steps", 6) if b["loop"] == "vi" else 3 * max(1, w.get("max_epochs", 2))
     if prop == "C12" and idx % K_BUCKET[prop] == K_BUCKET[prop] - 1 and b["loss"] != "contrastive":
         # the loops' own defaults (adam, MaximumLikelihoodLoss): nothing is observed per step,
         # only the end-state clauses apply
